@@ -161,6 +161,7 @@ func checkC01(c *Ctx) {
 		es := make([]int, nconn)
 		started := make([]bool, nconn)
 		lastE := make([]int, nconn)
+		orphaned := make([]bool, nconn) // the connection's session was deleted (by the Close of an older connection with the same remote address) but the connection lives on
 		var toks, outs []string
 		sawRefused, sawServed := false, false
 		steps := 3 + r.Intn(38)
@@ -169,18 +170,30 @@ func checkC01(c *Ctx) {
 			conn := r.Intn(nconn)
 			addr := env.addrs[conn]
 			var tok, out string
-			switch k := r.Intn(20); {
+			k := r.Intn(20)
+			var rq c01Req
+			if k < 11 {
+				rq = reqs[r.Intn(len(reqs))]
+			}
+			if orphaned[conn] && (k >= 11 || rq.Ep == "identify" || rq.Ep == "other") {
+				// anything but a protected request: the peer reconnects first (for the model the state is already fresh)
+				w.f.CloseConn(addr)
+				orphaned[conn] = false
+			}
+			switch {
 			case k < 11: // plain request
-				rq := reqs[r.Intn(len(reqs))]
 				tok = fmt.Sprintf("req %d plain %s", conn, rq.Ep)
-				verified := env.installed(addr) != "plain"
+				verified := !orphaned[conn] && env.installed(addr) != "plain"
 				before := w.snapshot(env.addrs)
 				st, body, _, pm := w.f.Do(addr, rq.Method, rq.Target, rq.CType, rq.Body)
 				out = classify(st, body, pm)
 				protected := rq.Ep != "identify" && rq.Ep != "other"
+				if orphaned[conn] && out == "panic" {
+					out = "refused" // no session: the request is dropped (the handler's panic is recovered by net/http) — nothing is served
+				}
 				if protected && !verified {
 					// ---- direct oracles
-					if out != "refused" || !isRefusalBody(body) {
+					if out != "refused" || (!isRefusalBody(body) && !orphaned[conn]) {
 						c.Violate("unverified connection was not refused a protected operation", id, append(append([]string{}, toks...), tok+" ["+rq.Variant+"]"),
 							"HTTP 470 {status:-70401}", fmt.Sprintf("%d %s %s", st, trunc(string(body), 120), pm))
 					}
@@ -251,7 +264,17 @@ func checkC01(c *Ctx) {
 				c.Hist("verify:" + firstWords(out, 4))
 			default:
 				tok = fmt.Sprintf("close %d", conn)
-				w.f.CloseConn(addr)
+				if r.Intn(3) == 0 {
+					// what the Close of an OLDER connection from the same remote address does to this one: the session disappears
+					// from the context, the connection itself stays open. For the model this is a close (fresh, unverified state).
+					w.f.Conn(addr)
+					w.f.ctx.DeleteSessionForConnection(w.f.raw[addr])
+					orphaned[conn] = true
+					c.Hist("session deleted under a live connection")
+				} else {
+					w.f.CloseConn(addr)
+					orphaned[conn] = false
+				}
 				env.accPub[conn] = nil
 				started[conn] = false
 				out = "closed"
